@@ -96,7 +96,7 @@ pub fn gen(o: &Opts, sink: &mut dyn FnMut(Vec<i64>, String)) {
         }
         sink(c, String::new());
     }
-    // a unit that keeps repeating the SAME frame every 100 ms against a 150 ms timeout must stay healthy
+    // a unit that keeps repeating the SAME frame every 60 ms against a 150 ms timeout must stay healthy
     // (identical frames are messages too), for every unit kind
     let nr = if o.tier_thorough { 60 } else { 12 };
     for j in 0..nr {
@@ -106,7 +106,7 @@ pub fn gen(o: &Opts, sink: &mut dyn FnMut(Vec<i64>, String)) {
         let mut c = config(&[(key, da, None, 3)]);
         let f = frame_from(key, da, &mut rng);
         c.push(2);
-        for _ in 0..(3 + rng.below(3)) { c.extend(f.iter()); c.push(2); c.extend([4, 100]); }
+        for _ in 0..(4 + rng.below(3)) { c.extend(f.iter()); c.push(2); c.extend([4, 60]); }
         c.push(2);
         sink(c, String::new());
     }
